@@ -263,18 +263,24 @@ def peer_leg(rep, args):
                 rep.d["evaluations"] += 1
                 ok = False
                 t0 = time.time()
-                while time.time() - t0 < 3.0:
-                    if rcl.cmd("GET", e["key"]) == ("$", e["value"].encode()):
+                def ask(*c):
+                    try:
+                        return rcl.cmd(*c)
+                    except OSError:
+                        return None
+                while time.time() - t0 < 3.0 and srv.alive():
+                    if ask("GET", e["key"]) == ("$", e["value"].encode()):
                         ok = True
                         break
                     time.sleep(0.01)
                 if not ok:
-                    alive = srv.alive() and rcl.cmd("PING") == ("+", b"PONG")
+                    time.sleep(0.2)
+                    alive = srv.alive() and ask("PING") == ("+", b"PONG")
                     if not alive:
-                        rep.violation("C14|e2e-gossip-peer|server-died|%s" % mode, "after a gossip frame sent as '%s' the server is gone or silent" % mode, dict(mode=mode, frame=i, size=len(data)))
+                        rep.violation("C14|e2e-gossip-peer|server-died|%s" % mode, "after a gossip frame sent as '%s' the server process is gone (rc=%s) or silent: %s" % (mode, srv.p.poll(), open(os.path.join(base, "n.log"), "rb").read()[-400:].decode("utf-8", "replace")), dict(mode=mode, frame=i, size=len(data)))
                         return
                     rep.violation("C14|e2e-gossip-peer|update-not-applied|%s|%s" % (mode, "large" if len(data) > 1500 else "small"),
-                                  "key %s of a %d-byte gossip frame sent as '%s' is not served 3 s later (GET -> %r) although the server answers" % (e["key"], len(data), mode, rcl.cmd("GET", e["key"])),
+                                  "key %s of a %d-byte gossip frame sent as '%s' is not served 3 s later (GET -> %r) although the server answers" % (e["key"], len(data), mode, ask("GET", e["key"])),
                                   dict(mode=mode, frame=i, size=len(data)))
                     # the connection's handler may be gone: continue on a fresh connection so that later modes are still judged
                     try:
